@@ -106,21 +106,28 @@ Definition set_kwargs (o : obj) (kw : dict) : obj :=
 Definition attr (o : obj) (k : string) : res pv :=
   match dget k (o_attrs o) with Some v => Ok v | None => Raise AttributeError end.
 
-(** [num_bins] setter (base.py:156-166 and 240-250): [if value < 1: raise ValueError]. *)
+(** [self.statistical_kwargs[k] = v] (the setters keep the null's keyword arguments in step
+    with the attribute; fix commits 0e07408, fd44d2a) *)
+Definition set_skw (o : obj) (k : string) (v : pv) : obj :=
+  {| o_det := o_det o; o_skw := dset (o_skw o) k v; o_attrs := o_attrs o; o_kwargs := o_kwargs o |}.
+Definition set_param (o : obj) (k : string) (v : pv) : obj := set_skw (set_attr o k v) k v.
+
+(** [num_bins] setter (base.py:156-167 and 241-252): [if value < 1: raise ValueError], then
+    [self._num_bins = value; self.statistical_kwargs["num_bins"] = value]. *)
 Definition set_num_bins (o : obj) (v : pv) : res obj :=
   match v with
-  | VInt z => if (z <? 1)%Z then Raise ValueError else Ok (set_attr o "num_bins" v)
-  | VSqrt2 => Ok (set_attr o "num_bins" v)
+  | VInt z => if (z <? 1)%Z then Raise ValueError else Ok (set_param o "num_bins" v)
+  | VSqrt2 => Ok (set_param o "num_bins" v)
   | _ => Raise TypeError                         (* '<' not supported *)
   end.
-(** mmd.py:101-111 *)
+(** mmd.py:102-113 *)
 Definition set_kernel (o : obj) (v : pv) : res obj :=
-  match v with VFun _ => Ok (set_attr o "kernel" v) | _ => Raise TypeError end.
-(** mmd.py:76-90 *)
+  match v with VFun _ => Ok (set_param o "kernel" v) | _ => Raise TypeError end.
+(** mmd.py:76-91 *)
 Definition set_chunk_size (o : obj) (v : pv) : res obj :=
   match v with
-  | VNone => Ok (set_attr o "chunk_size" v)
-  | VInt z => if (z <=? 0)%Z then Raise ValueError else Ok (set_attr o "chunk_size" v)
+  | VNone => Ok (set_param o "chunk_size" v)
+  | VInt z => if (z <=? 0)%Z then Raise ValueError else Ok (set_param o "chunk_size" v)
   | _ => Raise TypeError
   end.
 
@@ -144,7 +151,8 @@ Definition BINS_DEFAULT : pv := VInt 10.     (* the default of the base classes'
 Definition getd (k : string) (d : dict) : pv := match dget k d with Some v => v | None => VNone end.
 
 (** The nine [__init__] bodies, line by line.  None of the four binned subclasses passes
-    [num_bins=] to [super().__init__], so the base class uses ITS default. *)
+    [num_bins=] to [super().__init__], so the base class first stores ITS default 10; the
+    subclass's closing [self.num_bins = num_bins] then overwrites attribute and kwargs entry. *)
 Definition construct (d : det) (user : dict) : res obj :=
   do (named, kwargs) <- bind_kw (fst (signature d)) (snd (signature d)) user;
   match d with
@@ -203,13 +211,22 @@ Definition compare_kwargs (o : obj) (extra : dict) : res dict :=
 (** What the callback hands to [permutation]: [self.detector.statistical_kwargs]. *)
 Definition null_kwargs (o : obj) : dict := o_skw o.
 
-(** Public setter used after construction ([detector.num_bins = v]); [statistical_kwargs]
-    is not touched by it. *)
+(** Public setter used after construction ([detector.num_bins = v]). *)
 Definition assign_num_bins (o : obj) (v : pv) : res obj :=
   match o_det o with
   | EMD | Energy | MMD => Ok (set_attr o "num_bins" v)      (* plain attribute, unused *)
   | _ => set_num_bins o v
   end.
+
+(** [detector.<k> = v] for any attribute; MMD's [kernel] and [chunk_size] have validating setters. *)
+Definition assign_attr (o : obj) (k : string) (v : pv) : res obj :=
+  if String.eqb k "num_bins" then assign_num_bins o v
+  else match o_det o with
+       | MMD => if String.eqb k "kernel" then set_kernel o v
+                else if String.eqb k "chunk_size" then set_chunk_size o v
+                else Ok (set_attr o k v)
+       | _ => Ok (set_attr o k v)
+       end.
 
 (* ------------------------------------------------------------------------------------ *)
 Local Close Scope string_scope.
@@ -321,7 +338,7 @@ Section PValues.
     ofZ (binomZ m k) * powN p k * powN (one - p) (m - k).
   Definition binom_cdf (b m : nat) (p : num A) : num A := sum_upto (fun k => binom_pmf m k p) b.
 
-  (** [_compute_conservative]: [num_permutations] is the REQUESTED number. *)
+  (** [_compute_conservative(num_permutations, ...)]: [(b + 1) / (num_permutations + 1)]. *)
   Definition pv_conservative (b : nat) (num_permutations : Z) : num A :=
     ofZ (Z.of_nat b + 1) / ofZ (num_permutations + 1).
 
@@ -392,7 +409,7 @@ Section PValues.
   Definition p_value (method : meth) (requested : Z) (total : option Z) (max_num : Z) (b len : nat) : num A :=
     let mt := total_of total max_num in
     match resolve method requested with
-    | Conservative => pv_conservative b requested
+    | Conservative => pv_conservative b (Z.of_nat len)     (* num_permutations=len(permuted_statistic), fix 5423711 *)
     | Exact | Auto => pv_exact b len mt
     | Approximate => pv_approximate b len mt
     | Estimate => pv_estimate b len
